@@ -50,8 +50,15 @@ def main():
     for fn, ok, ms, rl in sorted(rows, key=lambda r: (r[1], -r[2])):
         if not ok or ms > 3000:
             print(f"{'ok  ' if ok else 'FAIL'} {ms:9.0f} ms  rlimit {rl:>10}  {fn}")
-    print(f"{path}: verified {vr.get('verified')} errors {vr.get('errors')} ({len(rows)} fn results)")
-    sys.exit(0 if vr.get("errors", 1) == 0 and vr.get("verified", 0) > 0 else 1)
+    # vacuity guards (`canary_*`, ensures false under the admitted axioms) MUST fail: they are the expected errors
+    canaries = [r for r in rows if r[0].split("::")[-1].startswith("canary_")]
+    bad = [r for r in rows if not r[1] and r not in canaries]
+    expected = sum(1 for r in canaries if not r[1])
+    note = f"; canaries rejected {expected}/{len(canaries)} (expected errors)" if canaries and not a.fn else ""
+    print(f"{path}: verified {vr.get('verified')} errors {vr.get('errors')} ({len(rows)} fn results){note}")
+    ok = (not bad and vr.get("errors", 1) == expected and vr.get("verified", 0) > 0
+          and (a.fn or expected == len(canaries)))
+    sys.exit(0 if ok else 1)
 
 
 if __name__ == "__main__":
